@@ -259,7 +259,12 @@ def run_property(prop, tier="quick", seed=0, jobs=None, rebaseline=False, only=N
     for i, lem in enumerate(getattr(reg, "lemma_specs", [])):
         if prop in [x.strip() for x in lem["prop"].split(",")] and (not only or only in lem["name"]):
             statics.append(("lemma_spec", i, timeout_s))
-    jobs = jobs or min(16, os.cpu_count() or 4)
+    cpus = os.cpu_count() or 4
+    jobs = jobs or min(16, cpus)
+    # processes = functions in flight x path workers each (x one discharge child): keep that near the core count, so
+    # that a solver's wall-clock budget means the same thing whether one function or thirty are verified
+    n_fn = max(1, min(jobs, len(keys) + len(statics)))
+    os.environ.setdefault("PYVC_PATH_WORKERS", str(max(2, min(4, 2 * cpus // n_fn))))
     per_fn_budget = (240.0 if tier == "quick" else 1200.0) * stretch
     tasks = [("fn", (k, timeout_s, per_fn_budget - 30), k) for k in keys] + [("static", st, f"{st[0]}#{st[1]}") for st in statics]
     # the function's own deadline (per_fn_budget - 30 s) stops it from STARTING obligations; one that is already running
